@@ -586,7 +586,7 @@ func c09ArgClass(kind, arg string) string {
 			return "boolean/strconv.ParseBool-forms"
 		}
 	case "length", "range":
-		collapsed := strings.NewReplacer(" ", "", "\t", "", "\n", "").Replace(arg)
+		collapsed := strings.NewReplacer(" ", "", "\t", "", "\n", "", "\r", "").Replace(arg)
 		if collapsed != arg && ((kind == "length" && yang.IsLengthArg(collapsed)) || (kind == "range" && yang.IsRangeArg(collapsed))) {
 			return kind + "/blanks-inside-tokens"
 		}
